@@ -2,6 +2,7 @@ import Pycoin.Driver.Core
 import Pycoin.DriverLib.TxText
 import Pycoin.Model.SignSecp
 import Pycoin.DriverLib.FastSecp
+import Pycoin.Model.Sighash
 /-!
 C05 ops.
 
@@ -112,6 +113,28 @@ def kcRun : List String → KcState → Option (Except Sign.Err KcState)
     | some (.error e) => some (.error e)
     | some (.ok st') => kcRun r st'
 
+/-- script code and closure kind (`true` = BIP143 witness closure) the digest of an input commits to; driver-side
+mirror of the unwrapping in `Sign.solve`, used only to cross-check the digests the harness supplies -/
+def codeOf (p2sh : Bytes → Option Bytes) (puzzle : Bytes) : Option (Bool × Bytes) :=
+  let wit := fun (s : Bytes) =>
+    let prog := s.drop 2
+    if prog.length = 32 then (p2sh prog).map (fun ws => (true, ws))
+    else if prog.length = 20 then some (true, [0x76, 0xa9, 0x14] ++ prog ++ [0x88, 0xac])
+    else none
+  match scriptHashFromScript puzzle with
+  | some h =>
+    match p2sh h with
+    | none => none
+    | some u => if isWitnessV0 u then wit u else some (false, u)
+  | none => if isWitnessV0 puzzle then wit puzzle else some (false, puzzle)
+
+/-- the signature hash of C04's model (`Model/Sighash.lean`) as the signer's `signature_for_hash_type_f` -/
+def modelSighash (c : Coin) (tx : Tx) (us : List (Option TxOut)) (idx : Nat) (witness : Bool) (code : Bytes) : Digest :=
+  fun ht =>
+    match (if witness then Sighash.witnessSighashF c tx us code [] idx ht else Sighash.sighashF c tx us code [] idx ht) with
+    | .ok z => some (z : Int)
+    | .error _ => none
+
 def handle : Handler := fun op args =>
   match op, args with
   | "c05_der", [r, s] => do
@@ -135,12 +158,28 @@ def handle : Handler := fun op args =>
     let ht ← if ht = "none" then some none else (parseNat? ht).map some
     let subset ← if subset = "all" then some none else (parseList? parseNat? subset).map some
     let entries ← parseList? parseEntry? keys
-    let digest ← parseDigestsTx? digests
+    let table ← parseList? (fun e => match e.splitOn "=" with
+      | [k, z] =>
+        match k.splitOn "." with
+        | [i, h] => do pure (← parseNat? i, ← parseNat? h, ← parseInt? z)
+        | _ => none
+      | _ => none) digests
     let passes ← (passes.splitOn "|").mapM fun p =>
       match p.splitOn ":" with
       | [idxs, valid] => do pure (← parseList? parseNat? idxs, valid.toList)
       | _ => none
-    if !(Gen.Sign.forkidCoins.contains coin || Gen.Sign.plainCoins.contains coin) then none else
+    let cls ← (Gen.Sign.coinClass.find? (·.1 = coin)).map (·.2)
+    let c ← parseCoin? cls
+    let p2shF := p2shLookup scripts
+    -- cross-check: every digest the harness computed with pycoin equals the model's
+    let bad := table.find? fun (i, ht, z) =>
+      match us[i]?.join with
+      | none => true
+      | some u =>
+        match codeOf p2shF u.script with
+        | none => true
+        | some (w, code) => modelSighash c tx us i w code ht != some z
+    if let some (i, ht, _) := bad then some s!"err DigestMismatch {i}.{ht}" else
     let step := fun (acc : Except Sign.Err Tx) (p : List Nat × List Char) =>
       match acc with
       | .error e => .error e
@@ -148,7 +187,7 @@ def handle : Handler := fun op args =>
         let es := p.1.filterMap (fun i => entries[i]?)
         let a : SignArgs := {
           C := crypto, fork := Gen.Sign.forkidCoins.contains coin, lookup := fun h => assocGet h es,
-          p2sh := p2shLookup scripts, digest := digest,
+          p2sh := p2shF, sighash := modelSighash c tx us,
           valid := fun i => p.2[i]? == some '1', ht := ht, subset := subset }
         signTx a tx us
     some (showE showTx (passes.foldl step (.ok tx)))
